@@ -207,7 +207,7 @@ prop("C02", ["c02_cleanup_temp_debris", "proto_glue", "raw_insert_or_update_basi
      outside=["power-loss reordering of un-fsynced directory updates (documented: directories are not fsynced)", "validity is asserted at every call boundary of KFS, i.e. at every point where the process can die between two system calls"],
      assumptions=COMMON_ASSUME)
 prop("C03", ["stack_gou_glue", "stack_ops_glue", "stack_finalize_glue", "raw_insert_or_update_basic", "raw_insert_or_touch_basic", "stack_ops_sanity_twin"],
-     ["stackc_set_temp_w1r1_fault", "stackc_set_temp_w1r1", "stackc_put_temp_w1r1", "stackc_put_temp_w1r1_fault", "stackc_set_w1r1", "stackc_set_w1r1_fault", "stackc_put_w1r1", "stack_set_w1r1"],
+     ["stackc_set_temp_w1r1_fault", "stackc_set_temp_w1r1", "stackc_put_temp_w1r1", "stackc_set_w1r1", "stackc_set_w1r1_fault", "stackc_put_w1r1", "stack_set_w1r1"],
      outside=["whether the kernel's fsync is durable", "value sizes (content ids)"], assumptions=COMMON_ASSUME)
 prop("C04", ["stack_gou_glue", "proto_glue", "plain_get_env", "plain_touch_env", "raw_insert_or_touch_basic", "raw_touch_basic", "raw_ops_sanity_twin"],
      ["plain_put_seq", "stackc_put_w1r1"],
@@ -256,7 +256,7 @@ prop("C17", ["raw_prune_pieces_dotfile_only", "c02_cleanup_temp_by_age", "raw_co
      ["raw_apply_update_evict_a_moveback_b"],
      outside=["nested directories below the cache directory (never listed: directories are skipped)"], assumptions=COMMON_ASSUME)
 prop("C18", ["stack_gou_glue", "proto_glue", "stack_ops_glue", "stack_finalize_glue", "plain_get_fault", "plain_touch_fault", "plain_ops_sanity_twin"],
-     ["stackc_set_temp_w1r1_fault", "plain_set_fault", "plain_put_fault", "sharded_put_absent_fault", "stackc_set_w1r1_fault", "stackc_put_temp_w1r1_fault", "stack_set_w1r1_fault"],
+     ["stackc_set_temp_w1r1_fault", "plain_set_fault", "plain_put_fault", "sharded_put_absent_fault", "stackc_set_w1r1_fault", "stack_set_w1r1_fault"],
      outside=["more than one failing call per operation", "failures inside the caller's populate function other than its own error return", "re-issuing the operation after the fault is covered by the fault-free harnesses starting from arbitrary valid states (C02)"],
      assumptions=COMMON_ASSUME)
 prop("C19", ["readonly_glue", "stack_gou_glue", "proto_glue", "stack_ops_glue", "stack_finalize_glue", "plain_get_seq", "stack_get_w1r0_nock", "raw_insert_or_update_basic", "stack_ops_sanity_twin"],
